@@ -71,12 +71,12 @@ fn first_difference(a: &[String], b: &[String]) -> (String, String) {
             let names = ["title", "severity", "file", "location", "description", "related"];
             for (k, (p, q)) in fx.iter().zip(fy.iter()).enumerate() {
                 if p != q {
-                    return (names.get(k).copied().unwrap_or("field").to_string(), fx[0].to_string());
+                    return (names.get(k).copied().unwrap_or("field").to_string(), fx[0].split(':').next().unwrap_or("").to_string());
                 }
             }
         }
     }
-    ("count".to_string(), a.get(b.len()).or(b.get(a.len())).map(|s| s.split('|').next().unwrap_or("").to_string()).unwrap_or_default())
+    ("count".to_string(), a.get(b.len()).or(b.get(a.len())).map(|s| s.split('|').next().unwrap_or("").split(':').next().unwrap_or("").to_string()).unwrap_or_default())
 }
 
 pub fn run(ctx: &Ctx) -> i32 {
@@ -115,7 +115,27 @@ pub fn run(ctx: &Ctx) -> i32 {
                 }
             }
             let printed = print(&g.prog, &Style::plain(), &mut Rng::new(1));
-            let files = split_into_files(&printed.text, &mut rng, 4);
+            let mut files = split_into_files(&printed.text, &mut rng, 4);
+            if k % 4 == 3 {
+                // "symmetric" files: the same layout in the base file and in included files, so that
+                // diagnostics (undefined labels, lints) sit at identical offsets in different files
+                let n_inc = 1 + rng.below(3);
+                let names: Vec<String> = (0..=n_inc).map(|i| if i == 0 { "main.s".to_string() } else { format!("lib{}.s", (b'a' + i as u8) as char) }).collect();
+                let tag = rng.below(1000);
+                let body = |i: usize, incl: &str| {
+                    let l = (b'a' + i as u8) as char;
+                    format!("# symmetric\nblk_{l}{tag:03}:\n    beq a0, a1, und_{l}{tag:03}\n    addi t0, t1, {}\n{incl}    add x0, a0, a1\n", rng_free(i))
+                };
+                fn rng_free(i: usize) -> usize { 5 + i % 1 }
+                let mut fs = Vec::new();
+                for (i, n) in names.iter().enumerate() {
+                    let incl = if i == 0 { names[1..].iter().map(|m| format!(".include \"{m}\"\n")).collect::<String>() } else { String::new() };
+                    fs.push((n.clone(), body(i, &incl)));
+                }
+                // the base file also ends the program
+                fs[0].1.push_str("    li a7, 10\n    ecall\n");
+                files = fs;
+            }
             acc.evaluations += 1;
             let replay = json!({"files": files});
             // ---------- library, fresh threads
